@@ -1869,11 +1869,15 @@ class Rule(metaclass=LogicalType):
     @classmethod
     def resolve_forward_refs(cls):
         # an override version of LogicalType.resolve_forward_refs
+        resolved = False
+        if isinstance(cls.__origin__, LogicalType):
+            # Rule[AnyOf(ForwardRef('X'), None)]: the references sit in the combined origin
+            if cls.__origin__.resolve_forward_refs():
+                resolved = True
         if not cls.__args__:
-            return False
+            return resolved
         args = []
         arg_transformers = []
-        resolved = False
         for arg, trans in zip(cls.__args__, cls.__arg_transformers__):
             if isinstance(arg, LogicalType):
                 # including the Rule class and LogicalType with combinator
